@@ -5,4 +5,11 @@ PROP = "C02"
 
 
 def main():
-    return G.main(PROP, dict(trusted=G.COMMON_TRUSTED, assumptions=G.COMMON_ASSUMPTIONS))
+    return G.main(PROP, dict(verus_units=[("compute_state_closure", 17)],
+                             trusted=G.COMMON_TRUSTED + [
+                                 "Verus unit compute_state_closure (real NFA::compute_state_closure and next_empty_states, rules subst R7 R10 R14 R16): assumed specs of <&HashSet as IntoIterator>::into_iter "
+                                 "(length, no duplicates, completeness; soundness is PROVED from these by a pigeonhole lemma) and of HashSet::clone; obeys_key_model::<StateIdx>() (axiom); "
+                                 "the initial work list `states.iter().copied().collect()` is a trusted R7 fragment; precondition wf_nfa (empty-transition targets in range) is not verified at the callers"],
+                             assumptions=G.COMMON_ASSUMPTIONS + [
+                                 "proved for compute_state_closure: the result contains the given states, is closed under empty transitions, every member is reachable from the given states by empty transitions "
+                                 "(so it is exactly the epsilon-closure), all members are states of the automaton, and the work-list loop terminates"]))
